@@ -89,7 +89,10 @@ def sessions(py7zr, R, tier):
 def small_sessions(py7zr):
     """one-member archives with the default chain (their encoded header is tiny) and appends of a few incompressible bytes with the
     default chain (the new data starts with an LZMA2 'uncompressed chunk' marker and lands where the old packed header was)"""
-    for names, add in ((["a"], [("n", b"new")]), (["a.txt"], [("notes.txt", b"\x01\x00"), ("z", b"\x00")]), (["a.txt", "b.txt"], [("n", b"new")])):
+    # (members beginning 01 00 - kHeader, kEnd - decode to something that parses as an empty header; b"\x01" + zeros is compressible
+    #  and longer than the old header: its LZMA2 stream yields at least the old header's declared size)
+    for names, add in ((["a"], [("n", b"new")]), (["a.txt"], [("notes.txt", b"\x01\x00"), ("z", b"\x00")]), (["a.txt", "b.txt"], [("n", b"new")]),
+                       (["a"], [("n", b"\x01" + bytes(300))]), (["a.txt", "b.txt"], [("n", b"\x01" + bytes(600)), ("o", b"\x01\x00" * 40)])):
         f = crash.RecordingFile()
         z = py7zr.SevenZipFile(f, "w")
         for nm in names:
